@@ -33,6 +33,9 @@ type TargetSpec struct {
 	Chunks  []string `json:"chunks,omitempty"` // hex; one Write on the body's stdout each
 	Fail    bool     `json:"fail,omitempty"`
 	Always  bool     `json:"always,omitempty"`
+	// BreakSave: the body replaces the target's own build record (already holding the in-progress marker written
+	// before the body) by a non-empty directory, so that recording the result after the body fails
+	BreakSave bool `json:"breaksave,omitempty"`
 }
 
 type RunSpec struct {
@@ -137,6 +140,9 @@ func buildFile(ts []TargetSpec) string {
 			q = append(q, fmt.Sprintf("%q", c))
 		}
 		fmt.Fprintf(&b, "    emit(%s)\n", strings.Join(q, ", "))
+		if t.BreakSave {
+			fmt.Fprintf(&b, "    breakrecord(%q)\n", t.label())
+		}
 		if t.Fail {
 			b.WriteString("    fail(\"boom\")\n")
 		}
@@ -215,6 +221,7 @@ func genCase(r *rng) *Case {
 		}
 		t.Fail = r.chance(12)
 		t.Always = r.chance(8)
+		t.BreakSave = r.chance(7)
 	}
 	if r.chance(15) { // a missing dependency somewhere
 		t := &c.Targets[r.below(n)]
@@ -358,9 +365,27 @@ func runCaseInner(c *Case) {
 		return rec, emit, cb
 	}
 
+	var proj *dawn.Project
+	// breakrecord(label): fault injection at the post-body record write of that label (see TargetSpec.BreakSave)
+	var broken []string
+	breakrecord := starlark.NewBuiltin("breakrecord", func(_ *starlark.Thread, _ *starlark.Builtin, args starlark.Tuple, _ []starlark.Tuple) (starlark.Value, error) {
+		l := string(args[0].(starlark.String))
+		path, err := proj.VerifInfoPath(l)
+		if err != nil {
+			return nil, err
+		}
+		os.Remove(path)
+		if err := os.MkdirAll(filepath.Join(path, "x"), 0o755); err != nil {
+			return nil, err
+		}
+		outMu.Lock()
+		broken = append(broken, path)
+		outMu.Unlock()
+		return starlark.None, nil
+	})
+
 	var rec *recorder
 	var emit, cb *starlark.Builtin
-	var proj *dawn.Project
 	var results []*runResult
 	for i, rs := range c.Runs {
 		if rs.Edit != "" {
@@ -372,7 +397,7 @@ func runCaseInner(c *Case) {
 			// a fresh recorder per load: targets still running after an earlier Run returned (possible when a
 			// dependency cycle was detected) keep reporting to the Events of the project they belong to
 			rec, emit, cb = newRecorder()
-			proj, err = dawn.Load(dir, &dawn.LoadOptions{Events: rec, Builtins: starlark.StringDict{"emit": emit}})
+			proj, err = dawn.Load(dir, &dawn.LoadOptions{Events: rec, Builtins: starlark.StringDict{"emit": emit, "breakrecord": breakrecord}})
 			if err != nil {
 				viol("load", "generated project does not load: "+err.Error(), i)
 				return
@@ -413,6 +438,16 @@ func runCaseInner(c *Case) {
 		rec.m.Lock()
 		res.log = append([]entry(nil), rec.log...)
 		rec.m.Unlock()
+		// undo the injected faults so that the next load finds no record (not a directory) for those targets
+		outMu.Lock()
+		for _, p := range broken {
+			os.RemoveAll(p)
+		}
+		if len(broken) > 0 {
+			stats["ev.save_faults"] += len(broken)
+		}
+		broken = nil
+		outMu.Unlock()
 		res.facts, res.deps = proj.VerifFactsOf()
 		results = append(results, res)
 		judgeRun(c, specs, i, res, viol)
@@ -639,7 +674,19 @@ func judgeRun(c *Case, specs map[string]*TargetSpec, run int, res *runResult, vi
 			}
 			return '0'
 		}
-		flags := []byte{bit(f.UpToDateErr), bit(rs.Always), bit(f.DepsUpToDate), bit(f.UpToDate), bit(f.Rerun), bit(rs.Dry), bit(!f.BodyErr), '1'}
+		// facts about the two record writes: the in-progress record was written iff the body was reached after the
+		// decision to run (observed by the spy, not through events); the result record fails exactly where the
+		// harness injected the fault
+		lbl, _ := label.Parse(l)
+		isTarget := lbl != nil && dawn.IsTarget(lbl)
+		wouldRun := f.Reached && !f.UpToDateErr && !(!rs.Always && f.DepsUpToDate && f.UpToDate && !f.Rerun)
+		preSaveOk := !(isTarget && wouldRun && !rs.Dry && !f.BodyCalled)
+		saveBroken := specs[l] != nil && specs[l].BreakSave && f.BodyCalled
+		if saveBroken && seqs[l] != "EF" {
+			viol("save-fault", fmt.Sprintf("%s reported %q although recording its result failed: evaluating then failed is the only legal sequence", l, seqs[l]), run)
+		}
+		flags := []byte{bit(f.UpToDateErr), bit(rs.Always), bit(f.DepsUpToDate), bit(f.UpToDate), bit(f.Rerun), bit(rs.Dry),
+			bit(isTarget), bit(preSaveOk), bit(!f.BodyErr), bit(!saveBroken)}
 		got := seqs[l]
 		if got == "" {
 			got = "."
